@@ -45,7 +45,7 @@ fn extrema_f32_2d<const R: usize, const C: usize, const RC: usize>(layout: u8) {
     kani::cover!(!any_nan && vals[0] == 0.0 && vals[1] == 0.0 && vals[0].to_bits() != vals[1].to_bits(), "W: signed zeros");
 }
 
-//@ prop=C05,C20 tier=quick mem=4 timeout=1800 inst="ArrayView2<f32> 2x2, F-order" bounds="all bit patterns (NaN, +-0, +-inf); unwind 8"
+//@ prop=C05,C20:thorough tier=quick mem=4 timeout=1800 inst="ArrayView2<f32> 2x2, F-order" bounds="all bit patterns (NaN, +-0, +-inf); unwind 8"
 #[kani::proof]
 #[kani::unwind(8)]
 fn c05_extrema_f32_2x2_f() {
@@ -95,13 +95,13 @@ fn extrema_i8_2d<const R: usize, const C: usize, const RC: usize>(layout: u8) {
     kani::cover!(lo == hi, "W: all equal");
 }
 
-//@ prop=C05,C20 tier=quick mem=4 timeout=1800 inst="ArrayView2<i8> 2x3, stepped view of a 5x7 parent" bounds="all contents; unwind 10"
+//@ prop=C05,C20:thorough tier=quick mem=4 timeout=1800 inst="ArrayView2<i8> 2x3, stepped view of a 5x7 parent" bounds="all contents; unwind 10"
 #[kani::proof]
 #[kani::unwind(10)]
 fn c05_extrema_i8_2x3_stepped() {
     extrema_i8_2d::<2, 3, 6>(2);
 }
-//@ prop=C05,C20 tier=quick mem=4 timeout=1800 inst="ArrayView2<i8> 2x3, F-order rows reversed" bounds="all contents; unwind 10"
+//@ prop=C05,C20:thorough tier=quick mem=4 timeout=1800 inst="ArrayView2<i8> 2x3, F-order rows reversed" bounds="all contents; unwind 10"
 #[kani::proof]
 #[kani::unwind(10)]
 fn c05_extrema_i8_2x3_frev() {
@@ -165,7 +165,7 @@ fn c05_extrema_f32_1d_unit_l1() {
 }
 
 /// Empty arrays (zero-length axes), 0-D, 3-D with permuted axes, IxDyn.
-//@ prop=C05,C17 tier=quick mem=6 timeout=2400 inst="i8: Array2 [2,0] and [0,3], Array1 [0], Array0, Array3 [2,1,2] with permuted axes, ArrayD" bounds="all contents; unwind 8"
+//@ prop=C05,C17:thorough tier=quick mem=6 timeout=2400 inst="i8: Array2 [2,0] and [0,3], Array1 [0], Array0, Array3 [2,1,2] with permuted axes, ArrayD" bounds="all contents; unwind 8"
 #[kani::proof]
 #[kani::unwind(8)]
 fn c05_extrema_shapes_i8() {
